@@ -155,19 +155,21 @@ pub fn build_trace<B: StarkField>(case: &Case) -> Built<B> {
 /// Runs the prover; with the `async` feature the prover's methods are `async fn`s and the future is
 /// driven by a minimal executor (the futures never actually pend).
 #[cfg(not(feature = "async"))]
-pub fn run_prover<B, H>(prover: &GenProver<B, H>, trace: GenTrace<B>) -> Result<Proof, winterfell::ProverError>
+pub fn run_prover<B, H, R>(prover: &GenProver<B, H, R>, trace: GenTrace<B>) -> Result<Proof, winterfell::ProverError>
 where
     B: StarkField + ExtensibleField<2> + ExtensibleField<3> + 'static,
     H: ElementHasher<BaseField = B> + Sync,
+    R: winterfell::crypto::RandomCoin<BaseField = B, Hasher = H>,
 {
     prover.prove(trace)
 }
 
 #[cfg(feature = "async")]
-pub fn run_prover<B, H>(prover: &GenProver<B, H>, trace: GenTrace<B>) -> Result<Proof, winterfell::ProverError>
+pub fn run_prover<B, H, R>(prover: &GenProver<B, H, R>, trace: GenTrace<B>) -> Result<Proof, winterfell::ProverError>
 where
     B: StarkField + ExtensibleField<2> + ExtensibleField<3> + 'static,
     H: ElementHasher<BaseField = B> + Sync,
+    R: winterfell::crypto::RandomCoin<BaseField = B, Hasher = H>,
 {
     block_on(prover.prove(trace))
 }
